@@ -3,15 +3,13 @@
 package c02
 
 import (
-	"fmt"
-	"path/filepath"
 	"testing"
 
+	"github.com/superfly/litefs/verif/gen"
 	"github.com/superfly/litefs/verif/node"
+	"github.com/superfly/litefs/verif/oracle"
 	"github.com/superfly/litefs/verif/pager"
 	"github.com/superfly/litefs/verif/pbt"
-	"github.com/superfly/litefs/verif/ref"
-	"github.com/superfly/ltx"
 	"pgregory.net/rapid"
 )
 
@@ -25,71 +23,6 @@ type Plan struct {
 	Prefetch    int        `json:"prefetch"`
 	Reopen      []bool     `json:"reopen"` // close and reopen the connection before transaction i
 	Txs         []pager.Tx `json:"txs"`
-}
-
-var sizes = []uint32{1, 2, 3, 5, 17, 255, 256, 257, 258, 300, 511, 512, 513, 520}
-
-func genSize(t *rapid.T, cur uint32) uint32 {
-	switch rapid.IntRange(0, 9).Draw(t, "sizekind") {
-	case 0, 1, 2, 3: // stay
-		if cur == 0 {
-			return rapid.SampledFrom(sizes).Draw(t, "size0")
-		}
-		return cur
-	case 4, 5: // grow a little
-		return cur + uint32(rapid.IntRange(1, 4).Draw(t, "grow"))
-	case 6: // shrink a little
-		d := uint32(rapid.IntRange(1, 4).Draw(t, "shrink"))
-		if cur > d {
-			return cur - d
-		}
-		return 1
-	default: // jump to a boundary
-		return rapid.SampledFrom(sizes).Draw(t, "size")
-	}
-}
-
-// GenTxs draws n transactions, tracking the committed size so that page
-// numbers are meaningful (the interpreter clamps anything out of range, so a
-// shrunk plan is still executable).
-func GenTxs(t *rapid.T, n int, maxPages uint32) []pager.Tx {
-	var txs []pager.Tx
-	cur := uint32(0)
-	for i := 0; i < n; i++ {
-		var tx pager.Tx
-		tx.Fill = byte(rapid.IntRange(1, 250).Draw(t, "fill"))
-		if cur > 0 && rapid.IntRange(0, 14).Draw(t, "nowrite") == 0 {
-			tx.NoWrite = true
-			txs = append(txs, tx)
-			continue
-		}
-		tx.NewSize = genSize(t, cur)
-		if tx.NewSize > maxPages {
-			tx.NewSize = maxPages
-		}
-		hi := cur
-		if tx.NewSize > hi {
-			hi = tx.NewSize
-		}
-		nw := rapid.IntRange(0, 12).Draw(t, "nwrites")
-		for j := 0; j < nw; j++ {
-			tx.Writes = append(tx.Writes, pager.Write{
-				Pgno: uint32(rapid.IntRange(2, int(hi)+1).Draw(t, "pgno")),
-				Ver:  uint32(rapid.IntRange(1, 1<<20).Draw(t, "ver")),
-			})
-		}
-		if rapid.IntRange(0, 3).Draw(t, "spill?") == 0 {
-			tx.SpillAfter = rapid.IntRange(1, 6).Draw(t, "spill")
-		}
-		if cur > 0 && rapid.IntRange(0, 4).Draw(t, "rollback?") == 0 {
-			tx.Rollback = true
-		}
-		txs = append(txs, tx)
-		if !tx.Rollback {
-			cur = tx.NewSize
-		}
-	}
-	return txs
 }
 
 func genPlan(t *rapid.T) Plan {
@@ -106,54 +39,11 @@ func genPlan(t *rapid.T) Plan {
 		maxPages = 40
 	}
 	n := rapid.IntRange(1, 25).Draw(t, "ntx")
-	p.Txs = GenTxs(t, n, maxPages)
+	p.Txs = gen.Txs(t, n, maxPages)
 	for range p.Txs {
 		p.Reopen = append(p.Reopen, rapid.IntRange(0, 5).Draw(t, "reopen") == 0)
 	}
 	return p
-}
-
-// CheckLTX verifies the transaction file that took a database from prev to
-// pos: header bookkeeping, page ordering and bounds, and that applying it to
-// the image at the previous position yields want.
-func CheckLTX(dir string, prev, pos ref.Pos, prevImg, want *ref.Image) (sig, msg string) {
-	path := filepath.Join(dir, ltx.FormatFilename(ltx.TXID(pos.TXID), ltx.TXID(pos.TXID)))
-	f, err := ref.DecodeLTXFile(path)
-	if err != nil {
-		return "ltx-unreadable", fmt.Sprintf("transaction file for %s: %v", pos, err)
-	}
-	h := f.Header
-	if uint64(h.MinTXID) != pos.TXID || uint64(h.MaxTXID) != pos.TXID {
-		return "ltx-txid", fmt.Sprintf("file covers %d-%d, position is %s", h.MinTXID, h.MaxTXID, pos)
-	}
-	if uint64(h.PreApplyChecksum) != prev.Checksum && !(prev.TXID == 0 && h.PreApplyChecksum == 0) {
-		return "ltx-pre-checksum", fmt.Sprintf("pre-apply checksum %016x != previous position's checksum %016x", uint64(h.PreApplyChecksum), prev.Checksum)
-	}
-	lock := ref.LockPgno(h.PageSize)
-	var last uint32
-	for _, pgno := range f.Order {
-		if pgno <= last {
-			return "ltx-page-order", fmt.Sprintf("page %d follows page %d", pgno, last)
-		}
-		if pgno > h.Commit {
-			return "ltx-page-beyond-commit", fmt.Sprintf("page %d beyond commit size %d", pgno, h.Commit)
-		}
-		if pgno == lock {
-			return "ltx-lock-page", fmt.Sprintf("lock page %d present in transaction file", pgno)
-		}
-		last = pgno
-	}
-	got := prevImg.Apply(f)
-	if h.Commit != want.N() {
-		return "ltx-commit-size", fmt.Sprintf("commit size %d, SQLite's image has %d pages", h.Commit, want.N())
-	}
-	if d := got.Diff(want); d != "" {
-		return "ltx-image", fmt.Sprintf("previous image + transaction file != image SQLite sees: %s", d)
-	}
-	if sum := want.Checksum(); sum != uint64(f.Trailer.PostApplyChecksum) || sum != pos.Checksum {
-		return "ltx-post-checksum", fmt.Sprintf("independent checksum %016x, trailer %016x, position %016x", sum, uint64(f.Trailer.PostApplyChecksum), pos.Checksum)
-	}
-	return "", ""
 }
 
 func runPlan(c *pbt.Case, p Plan) {
@@ -246,7 +136,7 @@ func runPlan(c *pbt.Case, p Plan) {
 			}
 		}
 		if pos != prev {
-			if sig, msg := CheckLTX(n.LTXDir(name), prev, pos, prevImg, want); sig != "" {
+			if sig, msg := oracle.CheckLTX(n.LTXDir(name), prev, pos, prevImg, want); sig != "" {
 				c.Failf("C02/"+sig, "transaction %d (%s -> %s): %s", i, prev, pos, msg)
 			}
 			c.Label("advanced")
